@@ -251,6 +251,9 @@ def monitor(run, case, op, r, defaults):
         if "exc" in r:
             return
         o = r["ok"]
+        if o.get("not_object"):
+            run.hit("roundtrip:not-a-collection", "loads(dumps(m)) is not a Collection object any more: %s" % json.dumps(o["m2"])[:120], rp)
+            return
         e1, e2 = effective(o["m"], defaults), effective(o["m2"], defaults)
         d = first_diff(e1, e2)
         if d:
